@@ -36,7 +36,7 @@ size_t cmpSize, int compressionType, double* hist_data)
 	//tmpSize must be "much" smaller than dataLength
 	size_t i, tmpSize = 12+MetaDataByteLength_double+exe_params->SZ_SIZE_TYPE;
 	unsigned char* szTmpBytes;
-	if(cmpSize!=12+4+MetaDataByteLength_double && cmpSize!=12+8+MetaDataByteLength_double)
+	if((cmpSize!=12+4+MetaDataByteLength_double && cmpSize!=12+8+MetaDataByteLength_double) || is_lossless_compressed_data(cmpBytes, cmpSize)!=-1) //a wrapped stream can have the size of a constant stream: look at its first bytes too
 	{
 		confparams_dec->losslessCompressor = is_lossless_compressed_data(cmpBytes, cmpSize);
 		if(confparams_dec->szMode!=SZ_TEMPORAL_COMPRESSION)
@@ -157,7 +157,7 @@ size_t cmpSize, int compressionType, double* hist_data)
 	}
 
 	free_TightDataPointStorageD2(tdps);
-	if(confparams_dec->szMode!=SZ_BEST_SPEED && cmpSize!=12+MetaDataByteLength_double+exe_params->SZ_SIZE_TYPE)
+	if(szTmpBytes!=cmpBytes) //an unwrapped copy was made
 		free(szTmpBytes);	
 	return status;
 }
